@@ -1085,7 +1085,7 @@ theorem specRename_good (old new : Path) (safe : Bool) (kids : Kids) (hw : WF (.
               exact ⟨k2, rfl, wf_insert new v _ _ hw1 hwv hi⟩
 
 /-- `unflatten_keys`: the loop of safe renames over the root keys equals the replay on the dict -/
-theorem unflattenLoop_refines (sep : Char) (ks : List String) (kids : Kids) (hw : WF (.node kids)) :
+theorem unflattenLoop_refines (sep : String) (ks : List String) (kids : Kids) (hw : WF (.node kids)) :
     (unflattenLoop sep ks (.node kids)).1 = (specUnflattenLoop sep ks (.node kids)).1 ∧
     (unflattenLoop sep ks (.node kids)).2.erase = (specUnflattenLoop sep ks (.node kids)).2.erase := by
   induction ks generalizing kids with
@@ -1093,11 +1093,11 @@ theorem unflattenLoop_refines (sep : Char) (ks : List String) (kids : Kids) (hw 
   | cons k ks ih =>
     simp only [unflattenLoop, specUnflattenLoop]
     split
-    · have hr := rename_refines_aux [k] (splitKey sep k) true kids hw
-      obtain ⟨kids', hk', hw'⟩ := specRename_good [k] (splitKey sep k) true kids hw
-      cases h1 : renameKey [k] (splitKey sep k) true (.node kids) with
+    · have hr := rename_refines_aux [k] (splitKeyS sep k) true kids hw
+      obtain ⟨kids', hk', hw'⟩ := specRename_good [k] (splitKeyS sep k) true kids hw
+      cases h1 : renameKey [k] (splitKeyS sep k) true (.node kids) with
       | mk t1 o1 =>
-        cases h2 : specRename [k] (splitKey sep k) true (.node kids) with
+        cases h2 : specRename [k] (splitKeyS sep k) true (.node kids) with
         | mk t2 o2 =>
           rw [h1, h2] at hr
           rw [h2] at hk'
@@ -1109,15 +1109,15 @@ theorem unflattenLoop_refines (sep : Char) (ks : List String) (kids : Kids) (hw 
     · exact ih kids hw
 
 
-theorem specUnflattenLoop_good (sep : Char) (ks : List String) (kids : Kids) (hw : WF (.node kids)) :
+theorem specUnflattenLoop_good (sep : String) (ks : List String) (kids : Kids) (hw : WF (.node kids)) :
     ∃ kids', (specUnflattenLoop sep ks (.node kids)).1 = .node kids' ∧ WF (.node kids') := by
   induction ks generalizing kids with
   | nil => exact ⟨kids, rfl, hw⟩
   | cons k ks ih =>
     simp only [specUnflattenLoop]
     split
-    · obtain ⟨kids', hk', hw'⟩ := specRename_good [k] (splitKey sep k) true kids hw
-      cases h2 : specRename [k] (splitKey sep k) true (.node kids) with
+    · obtain ⟨kids', hk', hw'⟩ := specRename_good [k] (splitKeyS sep k) true kids hw
+      cases h2 : specRename [k] (splitKeyS sep k) true (.node kids) with
       | mk t2 o2 =>
         rw [h2] at hk'; simp only at hk'; subst hk'
         cases o2 <;> simp
